@@ -437,6 +437,60 @@ def make_e_errors(params, part, nparts):
     return h
 
 
+def run_diamond_case(case):
+    """The description verified for a name is the one the interface resolves for it (I[name], nearest definer in __iro__): a diamond whose
+    common root defines store(key) and one middle interface redefines it as store(key, value)."""
+    from zope.interface import Interface, implementer
+    from zope.interface.exceptions import BrokenMethodImplementation, Invalid, MultipleInvalid
+    from zope.interface.verify import verifyClass, verifyObject
+    override_first, cand_args, vclass, third = case
+
+    class IBase(Interface):
+        def store(key):
+            pass
+
+    class IPlain(IBase):
+        pass
+
+    class IOver(IBase):
+        def store(key, value):
+            pass
+
+    class IThird(Interface):
+        def other():
+            pass
+    bases = (IOver, IPlain) if override_first else (IPlain, IOver)
+    if third:
+        bases = bases + (IThird,)
+    from zope.interface.interface import InterfaceClass
+    IBoth = InterfaceClass('IBoth', bases, {})
+    want = len(IBoth['store'].getSignatureInfo()['required'])
+    if want != 2 or IBoth['store'] is not IOver['store']:
+        raise Violation('harness: IBoth[store] is not the overriding definition', signature='C17:harness')
+    ns = {}
+    exec('def store(self, %s): pass\ndef other(self): pass' % ', '.join('a%d' % i for i in range(cand_args)), ns)
+    K = implementer(IBoth)(type('K', (object,), dict(ns)))
+    reached(case, dict(case=case))
+    try:
+        (verifyClass if vclass else verifyObject)(IBoth, K if vclass else K())
+        got = None
+    except (Invalid, MultipleInvalid) as e:
+        got = e
+    if cand_args == want and got is not None:
+        raise Violation('IBoth%s with store redefined by %s: a candidate store(self, key, value) conforming to IBoth[\'store\'] is rejected: %r' % (
+            tuple(b.__name__ for b in bases), 'the first base' if override_first else 'the second base', got), signature='C17:diamond')
+    if cand_args != want and not isinstance(got, BrokenMethodImplementation):
+        raise Violation('IBoth%s: a candidate store with %d argument(s) against IBoth[\'store\'](key, value): %r, BrokenMethodImplementation expected' % (
+            tuple(b.__name__ for b in bases), cand_args, got), signature='C17:diamond')
+
+
+def make_e_diamond(params, part, nparts):
+    def h(f: int, a: int, v: int, t: int):
+        case = (pick(f, 2), pick(a, 3) + 1, pick(v, 2), pick(t, 2))
+        native(run_diamond_case, case)
+    return h
+
+
 _ENC = ['zope.interface.verify:_verify', 'zope.interface.verify:_verify_element',
         'zope.interface.verify:_incompat', 'zope.interface.interface:fromFunction',
         'zope.interface.exceptions:MultipleInvalid']
@@ -464,6 +518,12 @@ HARNESSES = [
             bounds='every subset of {undeclared, tentative, missing attribute, method missing/wrong signature/non-callable/uninspectable x2 (one inherited)} x {no aliased elements, elements whose key differs from the description name (second name for one description, one-word Attribute description, re-exported inherited method): all present / one missing / wrong signature} x verifyObject(instance) / verifyClass / verifyObject(class that directly provides the interface)',
             oracle='exact exception type; MultipleInvalid members as a multiset of types',
             assumptions=['verifyClass does not check presence of plain attributes (docs/verify.rst)']),
+    Harness('e_diamond', make_e_diamond, kind='E', impls=('py',),
+            tiers=dict(quick=dict(budget_s=30, parts=1), thorough=dict(budget_s=30, parts=1)),
+            encoded=_ENC + ['zope.interface.interface:InterfaceClass.namesAndDescriptions'],
+            bounds='diamond interface hierarchy (root defines store(key), one middle interface redefines store(key, value), listed first or '
+                   'second, with or without a third unrelated base) x candidate with 1..3 arguments x verifyObject / verifyClass',
+            oracle='the description the interface resolves for the name (I[name]); exact exception type'),
 ]
 
 MANIFEST = {
